@@ -6,9 +6,21 @@ variable {α : Type} {P : Params α}
 theorem K_append (l1 l2 : List Oid) : K P (l1 ++ l2) = K P l1 + K P l2 := by
   unfold K; simp
 
-theorem register_inv (h : Laws P) (wf : WFk P) {st : St α} {D : List Oid} {t : Oid} {fuel : Nat}
+variable (P) in
+/-- iterations of the listener cascade that `registerTree` triggers -/
+def regSteps (fuel : Nat) (st : St α) (t : Oid) : Nat :=
+  let r0 := (st.recs t).getD (newRec P)
+  let res := initLoop P t (P.kids t) st 0 (P.base t)
+  if res.2.1 = 0 then steps P fuel (finalize res.1 t res.2.2) (r0.listeners.map (fun l => (l.1, l.2, res.2.2))) else 0
+
+variable (P) in
+/-- the potential between two registrations: unresolved subtree entries of the delivered trees -/
+def psi (st : St α) (D : List Oid) : Nat := phi P st D []
+
+theorem register_inv_steps (h : Laws P) (wf : WFk P) {st : St α} {D : List Oid} {t : Oid} {fuel : Nat}
     (inv : InvX P none st D []) (htD : t ∉ D) (hfuel : K P (D ++ [t]) ≤ fuel) :
-    InvX P none (registerTree P fuel st t) (D ++ [t]) [] := by
+    InvX P none (registerTree P fuel st t) (D ++ [t]) [] ∧
+    regSteps P fuel st t + psi P (registerTree P fuel st t) (D ++ [t]) = psi P st D + (nonfin P st t).length := by
   have hinit := init_inv wf inv htD
   obtain ⟨h1, h2, h3, h4, h5⟩ := initLoop_spec (P := P) t (expand P) (P.kids t) st 0 (P.base t)
     (fun c s hs => (inv.F c s hs).1)
@@ -32,7 +44,11 @@ theorem register_inv (h : Laws P) (wf : WFk P) {st : St α} {D : List Oid} {t : 
     rw [h4, foldl_op_eq_msum h, hfk]; rfl
   have hlis1 : lis st1 t = ((st.recs t).getD (newRec P)).listeners := by
     unfold lis; rw [hrt]; cases st.recs t <;> simp [newRec]
-  unfold registerTree
+  have hpsi1 : psi P st1 (D ++ [t]) = psi P st D + (nonfin P st t).length := by
+    unfold psi phi nonfin
+    simp only [hfe, List.length_nil, Nat.zero_add, List.map_append, List.sum_append, List.map_cons, List.map_nil,
+      List.sum_cons, List.sum_nil, Nat.add_zero]
+  unfold registerTree regSteps
   simp only [hres]
   by_cases hz : pend = 0
   · -- complete at once: finalise and cascade
@@ -46,18 +62,30 @@ theorem register_inv (h : Laws P) (wf : WFk P) {st : St α} {D : List Oid} {t : 
     have inv' := fin_push h wf hinit (by simp) htn1 (nonfin_nil_kids hnil) (by intro w hw; cases hw)
     rw [← hlis1, hexp]
     simp only [List.append_nil] at inv'
-    apply cascade_inv h wf _ _ _ inv'
-    -- potential ≤ fuel
-    unfold phi
     have hsplit := sum_nonfin_split (P := P) st1 t (expand P t) htn1 (D ++ [t])
     have hL := hinit.L t htn1
     have hle := sum_nonfin_le_K (P := P) st1 (D ++ [t])
-    simp only [List.length_map]
-    rw [hL]
+    -- the potential of the state the cascade starts from
+    have hphi0 : phi P (finalize st1 t (expand P t)) (D ++ [t]) ((lis st1 t).map (fun l => (l.1, l.2, expand P t))) =
+        psi P st1 (D ++ [t]) := by
+      unfold psi phi
+      simp only [List.length_map, List.length_nil]
+      rw [hL]
+      omega
+    obtain ⟨i1, i2⟩ := cascade_inv_steps h wf fuel _ _ inv' (by
+      rw [hphi0]; unfold psi phi; simp only [List.length_nil]; omega)
+    refine ⟨i1, ?_⟩
+    unfold psi at hpsi1 hphi0 ⊢
     omega
   · -- has to wait for children
     simp only [hz, if_false]
     have hpos : 0 < pend := by rw [hpend] at hz ⊢; omega
+    refine ⟨?_, ?_⟩
+    rotate_left
+    · -- no cascade; the new record does not change which entries are unresolved
+      have : psi P { st1 with recs := upd st1.recs t (some ⟨pend, sz, ((st.recs t).getD (newRec P)).listeners⟩) } (D ++ [t]) =
+          psi P st1 (D ++ [t]) := rfl
+      rw [this, hpsi1]; omega
     refine ⟨hinit.nodup, ?_, ?_, ?_, ?_, ?_, hinit.Fn, hinit.Fm⟩
     · intro t' s hs
       have hne : t' ≠ t := fun e => by
@@ -92,6 +120,10 @@ theorem register_inv (h : Laws P) (wf : WFk P) {st : St α} {D : List Oid} {t : 
         exact ⟨r, by simp [upd, hne, g1], g2, g3, g4⟩
     · intro w hw; cases hw
 
+theorem register_inv (h : Laws P) (wf : WFk P) {st : St α} {D : List Oid} {t : Oid} {fuel : Nat}
+    (inv : InvX P none st D []) (htD : t ∉ D) (hfuel : K P (D ++ [t]) ≤ fuel) :
+    InvX P none (registerTree P fuel st t) (D ++ [t]) [] := (register_inv_steps h wf inv htD hfuel).1
+
 theorem run_inv (h : Laws P) (wf : WFk P) (fuel : Nat) :
     ∀ (ts : List Oid) (D : List Oid) (st : St α),
       InvX P none st D [] → (D ++ ts).Nodup → K P (D ++ ts) ≤ fuel →
@@ -111,6 +143,38 @@ theorem run_inv (h : Laws P) (wf : WFk P) (fuel : Nat) :
     have e : D ++ t :: ts = (D ++ [t]) ++ ts := by simp
     rw [e] at hnd hK ⊢
     exact ih (D ++ [t]) _ inv1 hnd hK
+
+variable (P) in
+/-- cascade iterations over a whole run -/
+def runSteps (fuel : Nat) : List Oid → St α → Nat
+  | [], _ => 0
+  | t :: ts, st => regSteps P fuel st t + runSteps fuel ts (registerTree P fuel st t)
+
+/-- the cascade iterations of a whole run, plus the entries still unresolved at the end, are
+    bounded by the entries unresolved at the start plus the number of subtree entries delivered -/
+theorem run_steps (h : Laws P) (wf : WFk P) (fuel : Nat) :
+    ∀ (ts : List Oid) (D : List Oid) (st : St α),
+      InvX P none st D [] → (D ++ ts).Nodup → K P (D ++ ts) ≤ fuel →
+      runSteps P fuel ts st + psi P (run P fuel ts st) (D ++ ts) ≤ psi P st D + K P ts := by
+  intro ts
+  induction ts with
+  | nil => intro D st _ _ _; simp [runSteps, run, K]
+  | cons t ts ih =>
+    intro D st inv hnd hK
+    have htD : t ∉ D := by
+      rw [List.nodup_append] at hnd
+      intro hin; exact hnd.2.2 t hin t (List.mem_cons_self ..) rfl
+    have hK1 : K P (D ++ [t]) ≤ fuel := by
+      have : D ++ t :: ts = (D ++ [t]) ++ ts := by simp
+      rw [this, K_append] at hK; omega
+    obtain ⟨inv1, hst⟩ := register_inv_steps h wf inv htD hK1
+    have e : D ++ t :: ts = (D ++ [t]) ++ ts := by simp
+    rw [e] at hnd hK ⊢
+    have := ih (D ++ [t]) _ inv1 hnd hK
+    have hnf : (nonfin P st t).length ≤ (P.kids t).length := List.length_filter_le _ _
+    have hKc : K P (t :: ts) = (P.kids t).length + K P ts := by unfold K; simp
+    simp only [runSteps, run]
+    omega
 
 theorem init_inv0 : InvX P none (init : St α) [] [] := by
   refine ⟨List.nodup_nil, ?_, ?_, ?_, ?_, ?_, List.nodup_nil, ?_⟩
@@ -185,6 +249,16 @@ theorem agg_correct (h : Laws P) (wf : WFk P) (ds : List Oid) (hnd : ds.Nodup)
       obtain ⟨s, hs⟩ := (isFin_true_iff st t).mp hf
       exact (inv.F t s hs).2.1
     · intro ht; exact (isFin_true_iff st t).mpr (hfin t ht)
+
+
+/-- **Linear work.** Whatever the delivery order, the listener cascade performs at most as many
+    iterations over the whole run as the delivered trees have subtree entries — independently of
+    how large the expanded trees are. -/
+theorem cascade_steps_linear (h : Laws P) (wf : WFk P) (ds : List Oid) (hnd : ds.Nodup) (fuel : Nat)
+    (hfuel : K P ds ≤ fuel) : runSteps P fuel ds (init : St α) ≤ K P ds := by
+  have := run_steps h wf fuel ds [] init init_inv0 (by simpa using hnd) (by simpa using hfuel)
+  have h0 : psi P (init : St α) [] = 0 := by simp [psi, phi]
+  omega
 
 end Agg
 
